@@ -84,6 +84,10 @@ static int v_errno_choice(void)
 FILE *fopen(const char *path, const char *mode)
 {
     v_fopen_calls++;
+    V_ASSERT(v_fopen_calls <= 6, "C03: unbounded retry / recursion on a failing sink (more than 6 opens for one logged exec)");
+#ifdef VERIF_CBMC
+    __CPROVER_assume(v_fopen_calls <= 6);       /* the violation is recorded; do not unwind the runaway any further */
+#endif
     v_copy_bounded(v_last_path, V_PATHCAP, path);
     v_copy_bounded(v_last_mode, 4, mode);
     if (v_choice() & 1) { errno = v_errno_choice(); return NULL; }      /* open fails: EACCES, EMFILE, ENOSPC, EISDIR ... */
@@ -303,6 +307,10 @@ int socket(int domain, int type, int protocol)
 {
     (void)protocol;
     v_sock_calls++;
+    V_ASSERT(v_sock_calls <= 6, "C03: unbounded retry / recursion on a failing sink (more than 6 sockets for one logged exec)");
+#ifdef VERIF_CBMC
+    __CPROVER_assume(v_sock_calls <= 6);
+#endif
     v_sock_domain = domain; v_sock_type = type;
     if (v_choice() & 1) { errno = v_errno_choice(); return -1; }
     v_sock_open++;
